@@ -20,6 +20,7 @@ import Nitime.Lemmas.C20Spectrum
 import Nitime.Lemmas.C20Object
 import Nitime.Lemmas.C20Fft
 import Nitime.Lemmas.C20Vec
+import Nitime.Lemmas.C20Invariance
 
 namespace Nitime.C20.Props
 open Finset Nitime.Ev Nitime.C20
@@ -531,6 +532,43 @@ theorem autocov_along_axis (x : ND ℂ) (axis : ℤ) (ax : ℕ) (hax : normAxis 
   simp only [hax]
   exact ⟨_, rfl, lane_mapLanes (fun a => autocov1 a al db nm) (fun n => if al then 2 * n - 1 else n)
     (fun l => length_autocov1 l al db nm) x ax (normAxis_lt hax) ho hi⟩
+
+/-! ### round 4 (L10): baselines and gains — the Pearson coefficient and the z-score are shift- and
+scale-free; the one-pass raw-moment text is the same real function (`Lemmas/C20Invariance.lean`) -/
+
+/-- additive baselines on the seed and on the target do not change `seed_corrcoef` (hence the
+expectation of a run on level 2^b + fluctuation is the one of the fluctuation alone) -/
+theorem pearson_shift_invariant (seed target : List ℝ) (c d : ℝ) :
+    seedCorrcoef1 (seed.map (· + c)) (target.map (· + d)) = seedCorrcoef1 seed target ∧
+    corrcoef1 (seed.map (· + c)) (target.map (· + d)) = corrcoef1 seed target :=
+  ⟨seedCorrcoef1_shift seed target c d, seedCorrcoef1_shift seed target c d⟩
+
+/-- positive gains (2^±250 in the runs) on either argument do not change it; a negative gain on one
+argument flips the sign -/
+theorem pearson_scale_invariant (seed target : List ℝ) {a b : ℝ} (ha : 0 < a) (hb : 0 < b) :
+    seedCorrcoef1 (seed.map (a * ·)) (target.map (b * ·)) = seedCorrcoef1 seed target ∧
+    seedCorrcoef1 seed (target.map (fun v => (-1) * v)) = - seedCorrcoef1 seed target :=
+  ⟨seedCorrcoef1_scale seed target ha hb, seedCorrcoef1_neg seed target⟩
+
+/-- the raw-moment rewrite `xy = Σ t·(s−s̄)`, `xx = Σ t² − n·t̄²` (seeded change C20-15) is THE SAME
+real function as the code's two-pass text: no statement over ℝ separates them; the difference is
+binary64 cancellation, visible only to the correspondence / the exact-rational oracle -/
+theorem pearson_one_pass_eq_two_pass (seed target : List ℝ) (h : seed.length = target.length) :
+    seedCorrcoefOnePass1 seed target = seedCorrcoef1 seed target :=
+  seedCorrcoefOnePass1_eq seed target h
+
+/-- the z-score does not see an additive baseline -/
+theorem zscore_shift_invariant (x : List ℝ) (c : ℝ) : zscore1 (x.map (· + c)) = zscore1 x :=
+  zscore1_shift x c
+
+example : seedCorrcoef1 ([1, 2, 4].map (· + 1048576)) ([3, 5, 4].map (· + 16777216))
+    = seedCorrcoef1 ([1, 2, 4] : List ℝ) [3, 5, 4] := (pearson_shift_invariant _ _ _ _).1
+/-- exact instance of the raw-moment identity: level 2^20, fluctuation [1,2,4]: both sides 14/3 -/
+example : (dot (removeBias [1048577, 1048578, 1048580]) (removeBias [1048577, 1048578, 1048580]) : Rat) = 14 / 3 ∧
+    (dot [1048577, 1048578, 1048580] [1048577, 1048578, 1048580]
+      - 3 * mean [1048577, 1048578, 1048580] * mean [1048577, 1048578, 1048580] : Rat) = 14 / 3 := by
+  decide +kernel
+
 
 /-! ### non-vacuity -/
 example : (crosscovVector [[1, 2, 4]] [[3, 5, 4]] (some 2) : List (List (List Rat))) = [[[29 / 3, 13]]] := by
